@@ -263,6 +263,28 @@ def check_pattern(ctx, tr, rng, k, j, forced=None):
                             ctx.disagree('with exclude=, q.match(p, REALPATH) disagrees with membership in Path(\'.\').rglob(p)',
                                          dict(wit, q=c, exclude=ex, match=m, in_rglob=inr if isinstance(rset_e, set) else rset_e))
                             break
+                    # ... and with the same exclusion written inline under NEGATE (match's own defaults must not switch it off)
+                    npats = [pats, '!' + ex]
+                    try:
+                        rset_n = {os.path.normpath(str(p)) for p in WP.Path('.').rglob(npats, flags=flags_p | WP.NEGATE)}
+                    except Exception as e:  # noqa: BLE001
+                        rset_n = f'raised {type(e).__name__}'
+                    for c in sorted(rset)[:30]:
+                        try:
+                            m = WP.Path(c).match(npats, flags=(flags_p & ~WP.NOUNIQUE) | WP.REALPATH | WP.NEGATE)
+                            mp = WP.PurePath(c).match(npats, flags=(flags_p & ~WP.NOUNIQUE) | WP.NEGATE)
+                        except Exception as e:  # noqa: BLE001
+                            m = mp = f'raised {type(e).__name__}'
+                        ctx.count('match_vs_rglob_checks')
+                        inr = isinstance(rset_n, set) and os.path.normpath(c) in rset_n
+                        if m is not inr and not (m is False and inr and first_assignment_shape(toks, fn, c, implicit=True)):
+                            ctx.disagree('with an inline exclusion (NEGATE), q.match(p, REALPATH) disagrees with membership in Path(\'.\').rglob(p)',
+                                         dict(wit, q=c, patterns=npats, match=m, in_rglob=inr if isinstance(rset_n, set) else rset_n))
+                            break
+                        if os.path.basename(c) == os.path.basename(victim) and mp is not False:
+                            ctx.disagree('PurePath.match accepts a path whose base name an inline exclusion (NEGATE) names',
+                                         dict(wit, q=c, patterns=npats, match=mp))
+                            break
         finally:
             os.chdir(cwd)
     # ---- ValueError cases ----------------------------------------------------------------------------
@@ -318,9 +340,41 @@ def fixed_scenarios(ctx):
                     ctx.count('fixed_scenario_cases')
 
 
+# pathlib normalises `x/.` to `x` and `./x` to `x`: under SCANDOTDIR one pattern can reach one file by two spellings
+DOT_TREE = [('.h', 'd', None), ('.h/.g', 'd', None), ('.h/.g/f', 'f', None), ('.h/v', 'f', None), ('d', 'd', None), ('d/.k', 'd', None),
+            ('d/.k/x', 'f', None), ('d/w', 'f', None), ('.f', 'f', None), ('t', 'f', None)]
+
+
+def dot_segment_scenarios(ctx):
+    lit = lambda x: tuple(('lit', c) for c in x)  # noqa: E731
+    ST, DS, Q = (('star',),), lit('.') + (('star',),), (('q',),)
+    DQ = lit('.') + (('q',),)
+    shapes = [[DS, DS], [DS, DS, DS], [ST, DS, DS], [DS], [DS, ST], [ST, DS], [DS, lit('.')], [lit('.'), DS], [DS, lit('..')], [DQ, DS],
+              [DS, DQ], [ST, ST], [DS, ST, DS], [lit('d'), DS, DS], [lit('.h'), DS], [DS, lit('.g')], [DS, DS, ST], [Q, DS], [(('gstar',),), DS]]
+    fsets = [('SCANDOTDIR',), ('SCANDOTDIR', 'DOTGLOB'), ('SCANDOTDIR', 'NOUNIQUE'), ('SCANDOTDIR', 'GLOBSTAR'), ('SCANDOTDIR', 'NODOTDIR'),
+             (), ('DOTGLOB',), ('SCANDOTDIR', 'NODIR'), ('SCANDOTDIR', 'DOTGLOB', 'GLOBSTAR', 'NOUNIQUE')]
+    idx, todo = 0, []
+    for segs in shapes:
+        for fn in fsets:
+            for trail in (False, True):
+                idx += 1
+                if ctx.mine(idx):
+                    todo.append((segs, fn, trail))
+    if not todo:
+        return
+    with T.Tree(DOT_TREE, 'c16d-') as tr:
+        for segs, fn, trail in todo:
+            toks = gen.join_segments(segs, None, lead=False, trail=trail)
+            text = gen.ser(toks)
+            with ctx.case(timeout=20, label=('dotseg', text, fn)):
+                check_pattern(ctx, tr, ctx.rng_for('ds', text, fn), 0, 0, forced=(toks, text, ['EXTGLOB'] + list(fn), text, {}))
+                ctx.count('dot_segment_scenarios')
+
+
 def run(ctx):
     quick = ctx.quick
     fixed_scenarios(ctx)
+    dot_segment_scenarios(ctx)
     k = 0
     limit = 100 if quick else 10 ** 9
     while k < limit and not ctx.out_of_time():
